@@ -45,6 +45,18 @@ where
     B: Backend + HalImpl<B>,
 {
     fn take_slice<T>(&mut self, len: usize) -> (&mut [T], &mut Self) {
+        #[cfg(feature = "verif")]
+        {
+            let parent: (usize, usize) = (self.data.as_ptr() as usize, self.data.len());
+            let (taken, rem) = B::take_slice::<T>(self, len);
+            crate::verif::arena_take(
+                parent,
+                (taken.as_ptr() as usize, std::mem::size_of_val(taken)),
+                (rem.data.as_ptr() as usize, rem.data.len()),
+            );
+            return (taken, rem);
+        }
+        #[allow(unreachable_code)]
         B::take_slice(self, len)
     }
 }
